@@ -114,6 +114,8 @@ def addStop (s : State) (id : Nat) : State := { s with log := .stop id s.now :: 
 
 def dropPend (ps : List Pend) (id : Nat) : List Pend := ps.filter (fun e => e.id != id)
 
+def isPending (ps : List Pend) (id : Nat) : Bool := ps.any (fun e => e.id == id)
+
 /-- `writeMessage` returns nil: deferred removal of the pending entry, slot released (next waiter admitted);
     `doInternal` takes a response that is already in its channel, otherwise waits for one. -/
 def ackedPre (s : State) (c : Call) : State :=
@@ -125,8 +127,10 @@ def ackedPre (s : State) (c : Call) : State :=
 
 def acked (P : Params) (s : State) (c : Call) : State := admitNext P (ackedPre s c)
 
-/-- A response carrying the call's token reaches the token handler (one shot, one-slot channel). -/
-def deliver (s0 : State) (id tag : Nat) : State :=
+/-- A response carrying the call's token reaches the token handler of `doInternal` (one shot, one-slot channel).
+    If the request is still pending the handler first removes the entry and wakes the writer (the response is an
+    implicit acknowledgement, RFC 7252 §5.2.2) — `responseWakesWriter` is read from the source. -/
+def deliver (P : Params) (s0 : State) (id tag : Nat) : State :=
   match findCall s0.calls id with
   | some c =>
     let s := { s0 with log := .got id tag :: s0.log }
@@ -135,11 +139,11 @@ def deliver (s0 : State) (id tag : Nat) : State :=
     | .waitResp => finish s id (.ok tag)
     | _ =>
       match c.buf with
-      | none => { s with calls := updCall s.calls id (setBuf tag) }
+      | none =>
+        let s1 := { s with calls := updCall s.calls id (setBuf tag) }
+        if responseWakesWriter && c.phase == .waitAck && isPending s.pend id then acked P s1 (setBuf tag c) else s1
       | some _ => s
   | none => s0
-
-def isPending (ps : List Pend) (id : Nat) : Bool := ps.any (fun e => e.id == id)
 
 /-- `handleSpecialMessages`: a message with a pending message ID removes the entry and wakes the writer,
     whatever its type; a piggybacked response then goes on to the token handler. -/
@@ -151,7 +155,7 @@ def recvMid (P : Params) (s : State) (id : Nat) (k : Kind) : State :=
       | none => s
     else s
   match k with
-  | .pig tag => deliver s1 id tag
+  | .pig tag => deliver P s1 id tag
   | _ => s1
 
 /-- The call's context ends (cancellation or deadline). -/
@@ -202,7 +206,7 @@ def step (P : Params) (s : State) : Ev → State
   | .advance d => { s with now := s.now + d }
   | .tick ahead => tick P s ahead
   | .recvMid id k => recvMid P s id k
-  | .resp id tag => deliver s id tag
+  | .resp id tag => deliver P s id tag
   | .cancel id why => cancel P s id why
   | .mut _ _ => s          -- the caller's message is not read again after the first transmission
 
